@@ -456,3 +456,14 @@ _run0 = run
 def run(ctx, rep, tier):
     _run0(ctx, rep, tier)
     _shared(ctx, rep, tier)
+
+
+_run_lm11 = run
+
+
+def run(ctx, rep, tier):
+    _run_lm11(ctx, rep, tier)
+    from .shared import delegate
+    delegate(ctx, rep, tier, "C01", ("C01.l",), "C11.l", "sub-actions of conditional actions are enumerated recursively (a break nested in action-only ifs is found when the skip label is decided)",
+             pred=lambda v: "all_subactions" in v.function or "embeds" in v.function)
+    delegate(ctx, rep, tier, "C14", ("C14.d",), "C11.m", "integer conditions are rendered as `!= 0` comparisons (a bare shift / product as condition trips -Werror=int-in-bool-context)")
